@@ -433,7 +433,9 @@ func ZZ_H_History() {
 	}
 	methods := []string{"checksum", "timestamp"}
 	h.method = methods[zz.Choose("method", 2)]
-	focusKill := zz.Param("kill_history", 0) == 1 // the kill history varies the kill point, not these
+	// the kill history varies the kill point, and the long histories of the thorough tier the
+	// history (slim=1): not the task-shape dimensions below, which the short histories cover
+	focusKill := zz.Param("kill_history", 0) == 1 || zz.Param("slim", 0) == 1
 	h.hasPrompt = zz.Param("sibling_history", 0) == 0 && !focusKill && zz.Bool("has_prompt")
 	h.hasGen = zz.Bool("has_generates")
 	h.twoCmds = zz.Param("two_cmds", 0) == 1 && zz.Bool("two_cmds")
@@ -447,7 +449,8 @@ func ZZ_H_History() {
 	// commands succeeded completely (-1: none, or the last attempt did not succeed)
 	version := 0
 	okVersion := -1
-	last := "nothing" // what the previous invocation was / how it ended
+	last := "nothing" // how the most recent attempt to run the commands ended
+	since := ""       // "+<query>" when a read-only invocation came after it
 	steps := zz.Param("steps", 2)
 	for k := 0; k < steps; k++ {
 		// file operations before the step
@@ -456,13 +459,15 @@ func ZZ_H_History() {
 			case 1:
 				version++
 				h.p.put("a.src", fmt.Sprintf("v%d", version))
-			case 2: // modification time only
-				h.p.touch("a.src")
-				if h.method == "timestamp" {
-					version++
+			case 2: // modification time only (nothing happens when a.src was renamed away)
+				if h.p.exists("a.src") {
+					h.p.touch("a.src")
+					if h.method == "timestamp" {
+						version++
+					}
 				}
-			case 3: // a new matching file
-				if !h.p.exists("b.src") {
+			case 3: // a new matching file; written again it only gets a new modification time
+				if !h.p.exists("b.src") || h.method == "timestamp" {
 					version++
 				}
 				h.p.put("b.src", "b")
@@ -547,18 +552,18 @@ func ZZ_H_History() {
 			switch {
 			case r.started && r.complete:
 				okVersion = version
-				last = "success"
+				last, since = "success", ""
 			case r.started:
 				okVersion = -1
-				last = "cancelled-by-failing-sibling"
+				last, since = "cancelled-by-failing-sibling", ""
 			case !allowedSkip:
 				okVersion = -1
-				last = "cancelled-by-failing-sibling"
+				last, since = "cancelled-by-failing-sibling", ""
 			}
 		case zzModeRun, zzModeForce, zzModeKilled:
 			skipped := !r.started && r.err == nil
 			if prop == 4 && skipped {
-				zz.Assert(allowedSkip, "skip-only-after-a-successful-attempt-for-this-fingerprint/"+h.method+"/after-"+last)
+				zz.Assert(allowedSkip, "skip-only-after-a-successful-attempt-for-this-fingerprint/"+h.method+"/after-"+last+since)
 			}
 			if prop == 5 {
 				if mode == zzModeForce {
@@ -566,13 +571,14 @@ func ZZ_H_History() {
 						zz.Assert(r.started, "force-runs-the-commands/"+h.method)
 					}
 				} else if allowedSkip {
-					zz.Assert(skipped, "unchanged-task-is-skipped/"+h.method+"/after-"+last)
+					zz.Assert(skipped, "unchanged-task-is-skipped/"+h.method+"/after-"+last+since)
 				} else if !h.hasPrompt || yes {
-					zz.Assert(r.started, "changed-task-runs-again/"+h.method+"/after-"+last)
+					zz.Assert(r.started, "changed-task-runs-again/"+h.method+"/after-"+last+since)
 				}
 			}
 			// ghost update: an attempt happened unless the task was skipped
 			if !skipped {
+				since = ""
 				if r.complete {
 					okVersion = version
 					last = "success"
@@ -584,6 +590,8 @@ func ZZ_H_History() {
 					switch {
 					case r.err == errZZKilled:
 						last = "killed-part-way"
+					case r.started && mode == zzModeForce:
+						last = "forced-command-failed"
 					case r.started:
 						last = "command-failed"
 					case h.hasPrompt && !yes:
@@ -592,15 +600,13 @@ func ZZ_H_History() {
 						last = "error-before-commands"
 					}
 				}
-			} else {
-				last = "skip"
 			}
 		default:
 			if prop == 12 {
 				zz.Assert(!r.started, "query-runs-no-command/"+tag)
 				zz.Assert(!r.changed, "query-leaves-the-project-tree-unchanged/"+tag)
 			}
-			last = zzModeNames[mode]
+			since = "+" + zzModeNames[mode]
 		}
 	}
 	if zz.Twin() {
